@@ -17,6 +17,8 @@ package dns
 
 //@ func escapedNameLen [C08]
 //@   ensures IsFqdnSpec(s) ==> ret0 == unitsfrom(s, 0)
+//@   ensures nonneg: ret0 >= 0
+//@   loop 1 invariant nameLen >= 0 && nameLen >= len(s) - i
 //@   loop 1 invariant 0 <= i && unitsfrom(s, 0) == nameLen - len(s) + i + unitsfrom(s, i)
 //@   loop 1 invariant i <= len(s) + 1 && (i == len(s) + 1 ==> s[len(s)-1] == '\\')
 //@   loop 1 decreases len(s) + 1 - i
@@ -24,6 +26,7 @@ package dns
 
 // without compression the predicted name length is the number of units plus the root octet
 //@ func domainNameLen [C08]
+//@   ensures pos: ret0 >= 1
 //@   ensures plain: compression == nil && IsFqdnSpec(s) && !isdot(s) ==> ret0 == unitsfrom(s, 0) + 1
 //@   ensures root:  len(s) == 0 || isdot(s) ==> ret0 == 1
 //@   use units_noesc(s, 0)
@@ -61,3 +64,14 @@ package dns
 //@   loop 1 invariant 0 <= off && (!end ==> off <= len(s))
 //@   loop 1 decreases end ? 0 : 1
 //@   loop 1 decreases len(s) - off
+
+//@ func typeBitMapLen [C08 C16]
+//@   ensures nonneg: ret0 >= 0
+//@   loop 1 invariant l >= 0
+//@   pure
+//@ func (*APLPrefix).len [C08 C16]
+//@   ensures nonneg: ret0 >= 0
+//@ iface SVCBKeyValue.len [C08 C16]
+//@   ensures nonneg: ret0 >= 0
+//@ func (*SVCBAlpn).len [C08 C16]
+//@   loop 1 invariant l >= 0
